@@ -18,6 +18,30 @@ CHECKS = {
    text="every accepted input of the host corpus (semantic struct cases + feature-interaction products for structs, enums and enum->primitive hosts, ~1M inputs thorough) must expand to a token stream that parses (syn 2 full) as impl items only, each of one of the six traits with exactly one fn of the documented name/signature and `type Error` iff fallible",
    note="`parses` is judged by syn 2 here; rustc judges the compiled properties (C01-C03, C07, C11, C20); corpus expressions/types/patterns are well-formed by construction",
    technique=TECH_X + " + structural inspection of the output through a real parser"),
+ "C06": dict(level="exploration", design="DESIGN.md §8 C06",
+   text="every accepted two-counterpart input of the feature-interaction corpus: for each counterpart X the impls whose trait argument is X must be token-identical to the complete expansion of the projected input (all instructions for / dedicated to the other counterpart deleted) - the implementation is its own reference",
+   note="impls are attributed to a counterpart by the trait's type argument; bounded: <= 3 members, 2 counterparts, deviation bound 4 (quick) / 6 (thorough)",
+   technique=TECH_X + " with a metamorphic (projection) oracle"),
+ "C12": dict(level="exploration", design="DESIGN.md §8 C12",
+   text="every input of the host corpus x every non-empty subset (bounded) of its shortcut occurrences rewritten to the documented basic instructions: multiset of generated impl items and accept/reject decision must be identical",
+   note="token-level comparison; rewrite-deviation bound 2 (quick) / 3 (thorough) on top of the corpus bound",
+   technique=TECH_X + " with a metamorphic (rewrite) oracle"),
+ "C13": dict(level="exploration", design="DESIGN.md §8 C13",
+   text="every input of the host corpus x every respelling (bare vs #[o2o(x(..))], joining adjacent instructions into one list, trailing comma) up to the deviation bound: generated impl items and accept/reject decision must equal those of the default spelling",
+   note="the list of instructions that have a bare form is read from o2o-macros/src/lib.rs at start-up; diagnostics compared modulo the documented allow_unknown suffix",
+   technique=TECH_X + " with a metamorphic (respelling) oracle"),
+ "C15": dict(level="fault_enumeration", design="DESIGN.md §8 C15",
+   text="6 valid hosts x ~60 concrete misuse injections covering every class of the statement x every admissible position x every pair: verdict must be Err and every injected fault must be named by a diagnostic (salient key words); fault-free hosts and the semantic struct space (valid by construction) must be accepted",
+   note="`names the problem` = contains the class's salient identifiers/key words (OR of AND-sets), not full wording",
+   technique="exhaustive fault injection (every class x every position x every pair) on the real implementation against a diagnostic reference table"),
+ "C18": dict(level="exploration", design="DESIGN.md §8 C18",
+   text="the union corpus (host corpus, C16 instruction pairs and single-token mutations, attribute-form space, child_parents separator space) expanded by two builds of the same harness (o2o-impl with syn 1 / with syn 2) and joined by key: equal verdicts, identical token streams, equal sets of o2o-authored diagnostics",
+   note="a DeriveInput parse failure of the parser library counts as reject; parser-library wording is exempt; both builds use proc_macro2's fallback lexer",
+   technique=TECH_X + " with a differential oracle between the two back-end builds"),
+ "C19": dict(level="model_checking", design="DESIGN.md §8 C19, §6",
+   text="hooks build: every HashMap/HashSet of o2o-impl is a stand-in whose iteration order is a choice point of the explorer; for every input (incl. all pairs of misuse injections = several diagnostics at once) every iteration order of every iterated container is enumerated while the real derive runs and the rendered result must be identical; plus guard-off runs in K fresh processes must be byte-equal to the explored singleton (labelled sampling over hash seeds)",
+   note="assumes hash-container order is the only environment-dependent choice (no statics/env/time/I-O in o2o-impl, checked by reading); a std::collections import that bypasses the cfg-switched use lines is only visible to the fresh-process runs",
+   technique="stateless model checking of the real code under a controlled order oracle (exhaustive enumeration of iteration orders) + conformance runs in fresh processes"),
  "C16": dict(level="exploration", design="DESIGN.md §8 C16",
    text="bounded exhaustive enumeration of derive inputs (token soup per instruction, all pairs/triples of a 90-entry instruction catalogue over all holes of 4 hosts, all single-token mutations) run through the real derive under catch_unwind; no sampling",
    note="inputs lexed by proc_macro2's fallback lexer + syn 1 default features (the production path minus rustc's lexer); bounds: argument length <= 3 tokens, <= 3 instructions per input; panics already present on the pinned tree are listed in known_findings.json by (panic site, minimal cause class)",
